@@ -4,6 +4,7 @@ import (
 	"fmt"
 	"go/types"
 	"reflect"
+	"runtime"
 )
 
 // bridge wraps a native Go function as an intrinsic by converting
@@ -15,6 +16,7 @@ func bridge(fn any) externalFn {
 	ft := fv.Type()
 	return func(fr *frame, args []value) value {
 		cx := fr.i.cx
+		cx.bridgeName = runtime.FuncForPC(fv.Pointer()).Name()
 		n := ft.NumIn()
 		in := make([]reflect.Value, 0, n)
 		for i := 0; i < n; i++ {
@@ -62,7 +64,7 @@ func toNative(cx *pathCtx, v value, t reflect.Type) reflect.Value {
 		if s, ok := v.(string); ok {
 			return reflect.ValueOf(s).Convert(t)
 		}
-		cx.unsupported("symbolic string passed to native function")
+		cx.unsupported("symbolic string passed to native function " + cx.bridgeName)
 	case reflect.Slice:
 		sl, ok := v.([]value)
 		if !ok {
